@@ -1049,7 +1049,8 @@ def option_models():
                         "imp/model.yml": "Zi: !record\n  fields:\n    zy: int\nZe: !enum\n  values: [zy, zx]\nZg<T>: !record\n  fields:\n    zy: T\n"},
         "import-types-only-uses-protocols": {"model/model.yml": "Pz: !protocol\n  sequence:\n    a: Imp.Zi\n",
                                              "imp/_package.yml": "namespace: Imp\n",
-                                             "imp/model.yml": "Zi: !record\n  fields:\n    zy: int\nPimp: !protocol\n  sequence:\n    q: Zi\n"},
+                                             "imp/model.yml": "Zi: !record\n  fields:\n    zy: int\nPimp: !protocol\n  sequence:\n    q: Zi\n    u: [float, bool]\n"
+                                                              "    su: !stream\n      items: [Zi, string]\n    ou: [null, int, string]\n"},
         "with-version": {"model/model.yml": base, "v0/_package.yml": "namespace: Bq\n", "v0/model.yml": base.replace("    gq: string?\n", "    gq: string\n")},
     }
 
@@ -1141,9 +1142,16 @@ def part_c(chk, quick):
         return mname, cfg, r
     with ThreadPoolExecutor(build.NCPU) as pool:
         results = list(pool.map(run, cases))
+    accepted_yaml = {(mname, tuple(sorted((k, str(v)) for k, v in cfg.items() if k != "via_cli"))) for mname, cfg, r in results if r["accepted"] and not cfg.get("via_cli")}
     for mname, cfg, r in results:
         chk.count()
         if not r["accepted"]:
+            if cfg.get("via_cli"):
+                # the same options written in _package.yml are accepted: a -c override of a documented key must be too
+                opts = ",".join("%s=%s" % (k, cfg[k]) for k in ("ndjson", "hdf5", "cmake", "override", "pyndjson") if k in cfg)
+                chk.fail("options/%s/all/cli-override-rejected/%s" % (mname, opts), "model %s: `yardl generate %s` is rejected (%s) although the same settings are accepted in _package.yml" % (
+                    mname, " ".join(cli_overrides(dict(DEFAULT_CFG, **cfg))), (r.get("stderr") or "").strip()[-200:]), {"part": "C", "model": mname, "cfg": cfg, "stderr": r.get("stderr")})
+                continue
             raise build.HarnessError("option model %s rejected: %s" % (mname, r.get("stderr")))
         label = "%s|%s|%s" % (mname, "+".join(cfg["targets"]), ",".join("%s=%s" % (k, cfg[k]) for k in sorted(cfg) if k != "targets"))
         chk.nontriv(("C", label))
